@@ -108,6 +108,8 @@ func genC19() {
 	}
 	g.def("temp_sites", "list string", list(sites), "every call that creates a file or directory in the download functions: function:call(pattern literal)")
 	g.def("temp_flows", "list string", list(flows), "where the path that is advertised / renamed / written below comes from")
+	// ---- request coalescing: flightCache.Do, head, get, apkCache.get (gen_c19_flight.go) -----
+	c19FlightShapes(g, list)
 	g.write()
 }
 
